@@ -33,10 +33,10 @@ CHECKS = {
          "Scheduling granularity is channel/poll operations (one I/O-loop iteration is atomic); transport, broker and timer wheel are models (DESIGN.md 5.8, 5.9). Session shape is fixed (2 channels, 3 threads).",
          "DESIGN.md §6 C05", "simx"),
  "C06": ("model_checking",
-         "bounded-exhaustive enumeration of read scripts (cut placements x short-read/would-block) over real AMQP byte streams through the real FrameBuffer, against an envelope-level reference",
-         "Every placement of up to 2 (thorough: 3) cuts, each a short read or a would-block, over every byte offset of streams up to 300 bytes and over a boundary menu for streams up to 9 KB (frame boundaries, size-field offsets, 4096-byte quantum +-2), plus one-byte-per-read, truncation+EOF at every offset and handler failure at each frame; the frames handed on, their timing relative to the read that completed them, byte counts and the final error are compared with a reference built from the stream's construction.",
-         "Bounds: at most 3 cuts per stream; streams are the 20 listed in the evidence. The end-to-end half (client reaction to identical streams cut differently) is covered by the simx scenarios, not here.",
-         "DESIGN.md §6 C06", "seqx"),
+         "bounded-exhaustive enumeration of read scripts (cut placements x short-read/would-block) over real AMQP byte streams through the real FrameBuffer, against an envelope-level reference, plus an exhaustive segmentation sweep of one session on a live connection",
+         "Every placement of up to 2 (thorough: 3) cuts, each a short read or a would-block, over every byte offset of streams up to 300 bytes and over a boundary menu for streams up to 9 KB (frame boundaries, size-field offsets, 4096-byte quantum +-2), plus one-byte-per-read, truncation+EOF at every offset and handler failure at each frame; the frames handed on, their timing relative to the read that completed them, byte counts and the final error are compared with a reference built from the stream's construction. simx scenario segments: one fixed session (frames right behind OpenOk, a delivery in two body frames, a return, a get with content, replies, close) with the 449-byte server stream cut at every offset (thorough: every pair of offsets up to 9 apart, plus one deviation); the client's observations must be those of the unsegmented run.",
+         "Bounds: at most 3 cuts per stream in the sequential sweep, 1 (thorough 2) forced cuts in the live session; streams are the 20 listed in the evidence.",
+         "DESIGN.md §6 C06", "seqx+simx"),
  "C07": ("model_checking",
          "explicit-state BFS over frame sequences from a violation alphabet through the real dispatch (probe) against the statement's error classes, child-process runs for unallocatable sizes, plus a live-connection slice",
          "seqx: BFS to depth 5 (thorough 6) over 33 (thorough 45) frame symbols covering every dispatch arm on channel 0, an open channel and an unopened one, from every reachable collector state; per step no panic, the named error or a client exception (Connection.Close with the matching hard-error code as only frame, sealed, later frames ignored), nothing delivered by a violating frame; six unallocatable announced body sizes in child processes (panic/abort detection). simx: twelve representative violations pushed frame by frame into a live connection with every schedule/cut within 2 (thorough 3) deviations: close() returns the named error, never IoThreadPanic, the consumer only sees the valid delivery.",
@@ -53,10 +53,10 @@ CHECKS = {
          "Bounds: 3 channels; quick tier covers 6 (n, state) pairs, thorough all 12.",
          "DESIGN.md §6 C09", "simx"),
  "C10": ("model_checking",
-         "explicit-state breadth-first search of the complete reachable state graph of the real ChannelSlots (via probe) with a reference set, plus counter-boundary sequences in child processes",
-         "Complete reachable state graph for channel_max 1..3 (thorough: 4) under open(Some(i)) for every i in 0..=max+1, open(None), close, close of a non-open id, failing slot construction and drain; every transition is judged against the statement and the open set compared with a reference set. The u16 boundary (channel_max 65535, counter at 65533..65535, all ids open) is driven by real calls in child processes with a wall limit so that a spinning allocator is a verdict.",
-         "ChannelSlots is driven through a probe, not through Connection::open_channel; the request/reply hand-over around it is exercised by the simx scenarios. State space complete only for channel_max <= 4.",
-         "DESIGN.md §6 C10", "seqx"),
+         "explicit-state breadth-first search of the complete reachable state graph of the real ChannelSlots (via probe) with a reference set, counter-boundary sequences in child processes, plus deviation-bounded exploration of open/close/call sequences on a live connection",
+         "Complete reachable state graph for channel_max 1..3 (thorough: 4) under open(Some(i)) for every i in 0..=max+1, open(None), close, close of a non-open id, failing slot construction and drain; every transition is judged against the statement and the open set compared with a reference set. The u16 boundary (channel_max 65535, counter at 65533..65535, all ids open) is driven by real calls in child processes with a wall limit so that a spinning allocator is a verdict. simx scenario ids: four sequences of open_channel(None/Some), calls and closes through the real Connection and I/O thread with channel_max 1, 2, 3 and 65535 (ids 0, max, max+1, reopened ids, exhaustion, reuse), results compared with a set-of-open-ids reference, within 1 (thorough 2) deviations.",
+         "The complete state graph is that of ChannelSlots behind a probe (channel_max <= 4); the live-connection part runs four fixed sequences.",
+         "DESIGN.md §6 C10", "seqx+simx"),
  "C11": ("model_checking",
          "explicit-state BFS over consumer lifecycle histories through the real dispatch (probe) with a reference model, plus deviation-bounded exploration with real Consumer objects",
          "seqx: BFS to depth 7 (thorough 9; 8k / 31k states) over ConsumeOk, bodyless deliveries, client cancel request, CancelOk, server Cancel (nowait or not), server/client channel close, server/client connection close on tags {a,b} x channels {1,2} in every protocol-legal order; every consumer queue compared after every event (deliveries in order, exactly one terminal of the right kind, then disconnected; CancelOk written iff not nowait). simx: real Consumer objects - cancel twice, drop, forget + channel close, cancel with CancelOk withheld while deliveries keep arriving, server cancel then client cancel, connection dropped - with three deliveries pushed at any point, within 3 (thorough 4) deviations; scenario consumer-race: two consumers on channel 1 and one on channel 2, a cancel in flight while the server closes channel 1 or the connection at any point, mem_channel_bound 1 and 16, within 2 (thorough 3) deviations - every queue carries only its own tag's deliveries, then exactly one terminal naming the true cause.",
